@@ -11,6 +11,7 @@ Main services
 Expressions are nested tuples (hashable), see `Body.expr_place`.
 """
 import json
+import os
 import re
 import sys
 from collections import defaultdict, deque
@@ -96,6 +97,26 @@ class Program:
                 i['crate'] = d['crate']
                 self.impls.append(i)
         self._callgraph = None
+        # frozen parameter names (rules/param_names.json): the rule tables name parameters as they were called
+        # when the tables were written; a renamed parameter is mapped back by position, so that renaming one is
+        # not reported (arguments are passed by position, which is what the rules are about)
+        self.param_renames = {}
+        try:
+            frozen = json.load(open(os.path.join(os.path.dirname(os.path.dirname(os.path.abspath(__file__))),
+                                                 'rules', 'param_names.json')))
+        except (OSError, ValueError):
+            frozen = {}
+        for path, names in frozen.items():
+            b = self.bodies.get(path)
+            if b is None or b.kind != 'fn':
+                continue
+            cur = b.raw_param_names()
+            if len(cur) != len(names) or b.argc != len(names):
+                continue
+            m = {cur[i + 1]: n for i, n in enumerate(names) if cur.get(i + 1) and n and cur[i + 1] != n}
+            # only an unambiguous renaming (no current name maps from/to two parameters)
+            if m and len(set(m.values())) == len(m):
+                self.param_renames[path] = m
         # trait method decl path -> [impl method paths]
         self.trait_impls = defaultdict(list)
         for b in self.bodies.values():
@@ -222,22 +243,33 @@ class Body:
         and upvar field sym -> name."""
         if self._names is None:
             n = {}
+            ren = self.prog.param_renames.get(self.path, {}) if self.kind == 'fn' else {}
             for d in self.raw['debug']:
                 p = d.get('p')
                 if p and len(p) == 1:
-                    n.setdefault(p[0], d['n'])
+                    nm = d['n']
+                    if d.get('arg') is not None:
+                        nm = ren.get(nm, nm)
+                    n.setdefault(p[0], nm)
             self._names = n
         return self._names
 
-    def local_named(self, name):
-        return [l for l, n in self.names().items() if n == name]
+    def root_path(self):
+        return self.path.split('::{closure')[0]
 
-    def param_names(self):
+    def raw_param_names(self):
         out = {}
         for d in self.raw['debug']:
             if d.get('arg') is not None and d.get('p') and len(d['p']) == 1:
                 out[d['arg']] = d['n']
         return out
+
+    def local_named(self, name):
+        return [l for l, n in self.names().items() if n == name]
+
+    def param_names(self):
+        ren = self.prog.param_renames.get(self.path, {}) if self.kind == 'fn' else {}
+        return {i: ren.get(n, n) for i, n in self.raw_param_names().items()}
 
     def loc(self, pos):
         b, i = pos
@@ -612,7 +644,7 @@ class Body:
         if is_arg or not defs:
             if self.kind != 'fn' and local == 1:
                 # closure/coroutine environment: field = upvar symbol
-                base = ('env',)
+                base = ('env', tuple(sorted(self.prog.param_renames.get(self.root_path(), {}).items())))
             elif local in names:
                 base = ('var', names[local])
             elif is_arg:
@@ -994,7 +1026,8 @@ def field_of(e, name):
     if e[0] == 'env':
         # upvar symbol like self__storage -> var self . storage
         parts = name.split('__')
-        r = ('var', parts[0])
+        ren = dict(e[1]) if len(e) > 1 else {}
+        r = ('var', ren.get(parts[0], parts[0]))
         for p in parts[1:]:
             r = ('field', r, p)
         return r
